@@ -30,7 +30,11 @@ for log in logs:
 for (pid, n), r in sorted(res.items()):
     src = '/tmp/wt-%s/out' % pid
     k = n
-    if n >= 3:
+    if n >= 5:
+        # third round: /tmp/w3m-<id>/out/mutant{1,2} become <id>-5 and <id>-6
+        src = '/tmp/w3m-%s/out' % pid
+        k = n - 4
+    elif n >= 3:
         # second round of sub-agents: /tmp/w2-<id>/out/mutant{1,2} become <id>-3 and <id>-4
         src = '/tmp/w2-%s/out' % pid
         k = n - 2
